@@ -18,7 +18,9 @@ class RemoveDebug(SuiteTransformer):
 
     def constant_value(self, node):
         if sys.version_info < (3, 4):
-            return node.id == 'True'
+            if isinstance(node, ast.Name) and node.id in ('True', 'False'):
+                return node.id == 'True'
+            return None
         elif is_constant_node(node, ast.NameConstant):
             return node.value
         return None
@@ -29,6 +31,10 @@ class RemoveDebug(SuiteTransformer):
 
         if isinstance(node.test, ast.Name) and node.test.id == '__debug__':
             return True
+
+        if not (isinstance(node.test, ast.Compare) and isinstance(node.test.left, ast.Name) and node.test.left.id == '__debug__'):
+            # Only comparisons of __debug__ itself can be removed
+            return False
 
         if isinstance(node.test, ast.Compare) and len(node.test.ops) == 1 and isinstance(node.test.ops[0], ast.Is) and self.constant_value(node.test.comparators[0]) is True:
             return True
